@@ -512,7 +512,7 @@ pub fn monitor(tier: Tier) -> Monitor {
         ],
         families: vec![
             Family { name: "hdr_bytes", count: tier.pick(600, 6000), priority: true, enumerated: false, run: fam_hdr },
-            Family { name: "table", count: tier.pick(60_000, 2_000_000), priority: false, enumerated: false, run: fam_table },
+            Family { name: "table", count: tier.pick(300_000, 6_000_000), priority: false, enumerated: false, run: fam_table },
         ],
         label,
         floors,
